@@ -146,6 +146,15 @@ CLAIMED['C05'] = dict(
     technique='function contracts (CBMC DFCC) on the extracted mem-initialiser lists with compile-time constants bound by the real compiler',
     design='4/C05')
 
+CLAIMED['C04'] = dict(
+    text='Partial. Loop-contract proof (unbounded, n <= 2^40) of the three copier_n specialisations behind copy_pixels / std::copy on views that are not '
+         '1-D traversable: every pixel g of [0,n) is copied exactly once, from source pixel g (the per-pixel loop in row-major order); every '
+         'chunk handed to copy_n lies inside ONE row of each 2-D side, so row padding and neighbouring pixels are never written; nothing beyond n pixels is written.',
+    note=TRUST + 'fill/equal/for_each/generate/transform pixel algorithms are not built. iterator += k is the C03 advance contract; copy_n on raw iterators is assumed to copy k consecutive pixels; '
+         'the 1-D traversability predicate that selects the copier is under contract in C03.',
+    technique='function contracts with loop invariants / decreases clauses and a ghost target pixel, enforced by CBMC DFCC on extracted real bodies',
+    design='4/C04')
+
 NOT_APPLICABLE = {
     'C12': 'relates two whole template pipelines through a file/stream and external C libraries; no function contract within reach of a C verifier states what read_image returns after write_view (DESIGN 5)',
     'C13': 'equality of results of different compositions of reader classes/devices/policies over the same bytes is a relational property over I/O histories, not a pre/postcondition of an extractable function (DESIGN 5)',
